@@ -127,10 +127,12 @@ class Job(BaseJob[Callable[..., None]]):
             super()._calc_next_exec(ref_dt)
 
     def __repr__(self) -> str:
-        with self.__lock:
-            params: tuple[str, ...] = self._repr()
-            params_sum: str = ", ".join(params[:6] + (repr(self.__weight),) + params[6:])
-            return f"scheduler.Job({params_sum})"
+        # only the constructor parameters are rendered and none of them ever changes, the state
+        # lock is not needed; holding it while the arguments are rendered would take it before
+        # the scheduler's lock whenever an argument references the scheduler
+        params: tuple[str, ...] = self._repr()
+        params_sum: str = ", ".join(params[:6] + (repr(self.__weight),) + params[6:])
+        return f"scheduler.Job({params_sum})"
 
     def __str__(self) -> str:
         return f"{super().__str__()}, w={self.weight:.3g}"
